@@ -9,6 +9,8 @@ kinds: take, enter, exit, ack, save_start, save_end, save_failed, stop, return, 
 from __future__ import annotations
 
 import asyncio
+import gc
+import weakref
 import concurrent.futures as cf
 import json
 from typing import Any, Callable, Dict, List, Optional
@@ -434,6 +436,16 @@ def bad_payload(spec: Dict[str, Any], valid: bytes) -> bytes:
     return json.dumps(d).encode()
 
 
+PARKED: Any = weakref.WeakValueDictionary()
+
+
+def _wake_parked(i: int) -> None:
+    gc.collect()
+    f = PARKED.get(i)
+    if f is not None and not f.done():
+        f.set_result(None)
+
+
 def register_timing_tasks(broker: ScriptedBroker, tr: Trace, sc: Dict[str, Any]) -> None:
     specs = sc["msgs"]
     nbar = sum(1 for m in specs if m.get("barrier"))
@@ -458,7 +470,14 @@ def register_timing_tasks(broker: ScriptedBroker, tr: Trace, sc: Dict[str, Any])
                     tr.add("barrier_timeout", i)
                 return ["rv", i]
             d = NEVER if sp["out"] == "never" else sp["dur"]
-            if d:
+            if d and sp.get("parked"):
+                # the function waits on a future nobody else holds strongly (a waiter kept in a weak registry): the task
+                # stays alive only as long as the worker itself keeps a reference to it; a GC pass happens before the wake-up
+                fut = asyncio.get_running_loop().create_future()
+                PARKED[i] = fut
+                asyncio.get_running_loop().call_later(d, _wake_parked, i)
+                await fut
+            elif d:
                 await asyncio.sleep(d)
             if sp["out"] not in ("ret", "never"):
                 raise EXC[sp["out"]]()
@@ -623,6 +642,8 @@ def run_worker(sc: Dict[str, Any], register: Optional[Callable[..., None]] = Non
         ev = asyncio.Event()
         if sc.get("stop") is not None:
             def _stop() -> None:
+                if any(m.get("parked") for m in sc["msgs"]):
+                    gc.collect()          # a garbage-collection pass happens to run right before the stop request
                 tr.add("stop")
                 ev.set()
             loop.call_at(sc["stop"], _stop)
